@@ -57,7 +57,7 @@ def _ref_features_impl(sig, fs, f_range, kw, rs):
     from bycycle.features import compute_features
     import warnings
     warnings.simplefilter('ignore')
-    return outcome(compute_features, sig, fs, tuple(f_range), return_samples=rs, **kw)
+    return outcome(compute_features, sig, fs, f_range, return_samples=rs, **kw)
 
 
 def ref_features(sig, fs, f_range, settings, return_samples=None):
@@ -68,7 +68,8 @@ def ref_features(sig, fs, f_range, settings, return_samples=None):
     rs = kw.pop('return_samples', True)
     if return_samples is not None:
         rs = return_samples
-    return pristine.call('simcheck.ref:_ref_features_impl', sig.copy(), fs, tuple(f_range), kw, rs)
+    f_range = list(f_range) if isinstance(f_range, list) else tuple(f_range)
+    return pristine.call('simcheck.ref:_ref_features_impl', sig.copy(), fs, f_range, kw, rs)
 
 
 def _ref_recompute_impl(df, th):
@@ -93,13 +94,14 @@ def _ref_group_impl(ndim, sigs, fs, f_range, kw, axis, rs):
     warnings.simplefilter('ignore')
     func = compute_features_2d if ndim == 2 else compute_features_3d
     with Installed(Sim({'mode': 'fifo'}, Tape(0))):
-        return outcome(func, sigs, fs, tuple(f_range), compute_features_kwargs=kw, axis=axis,
+        return outcome(func, sigs, fs, f_range, compute_features_kwargs=kw, axis=axis,
                        return_samples=rs, n_jobs=1)
 
 
 def ref_group(sigs, fs, f_range, kw, axis, rs):
     from . import pristine
-    return pristine.call('simcheck.ref:_ref_group_impl', sigs.ndim, sigs.copy(), fs, tuple(f_range),
+    f_range = list(f_range) if isinstance(f_range, list) else tuple(f_range)
+    return pristine.call('simcheck.ref:_ref_group_impl', sigs.ndim, sigs.copy(), fs, f_range,
                          copy.deepcopy(kw), axis, rs)
 
 
